@@ -35,6 +35,20 @@ Theorem C22_unencrypted_roundtrip : forall id data r, i64 id -> len data < 2 ^ 3
 Proof. exact unencrypted_roundtrip. Qed.
 Print Assumptions C22_unencrypted_roundtrip.
 
+(* Reused receivers (read loops decode into one long-lived value): whatever the value held
+   before -- a longer message, a failed decode -- the outcome is that of a fresh value, so
+   all round-trip theorems above hold for sequences decoded into the same value.
+   (For containers this holds since fix 173e3bd61; before it the old messages were kept.) *)
+Theorem C22_unencrypted_reuse : forall old b, decode_unencrypted_into old b = decode_unencrypted b.
+Proof. exact decode_unencrypted_reuse. Qed.
+Print Assumptions C22_unencrypted_reuse.
+Theorem C22_result_reuse : forall old b, decode_result_into old b = decode_result b.
+Proof. exact decode_result_reuse. Qed.
+Print Assumptions C22_result_reuse.
+Theorem C22_container_reuse : forall old b, decode_container_into old b = decode_container b.
+Proof. exact decode_container_reuse. Qed.
+Print Assumptions C22_container_reuse.
+
 (* Totality for arbitrary bytes; the container loop never runs out of fuel (it is bounded
    by the input length) and every decoded message accounts for at least 16 input bytes. *)
 Theorem C22_total_container : forall b, bytes_ok b ->
